@@ -198,7 +198,7 @@ def small_config(draw):
     if len(o["BunchCurrent"]) > 2:
         o["BunchCurrent"] = o["BunchCurrent"][:2] if sum(1 for x in o["BunchCurrent"][:2] if x > 0) else [1e-3, 1e-3]
         o["alpha0"] = gen.f32(cfggen.alpha0_for_spacing(1.5, o))
-    o["outstep"] = draw(st.sampled_from([0, 1, 1, 1, 2, 2, 3]))
+    o["outstep"] = draw(st.sampled_from([0, 1, 1, 1, 1, 2, 2, 2, 3]))
     o["SavePhaseSpace"] = draw(st.sampled_from([0, 1, 2]))
     o["FPTrack"] = draw(st.sampled_from([0, 1, 2, 3]))
     return o
@@ -209,7 +209,7 @@ def cases(draw):
     o = draw(small_config())
     track = [[draw(st.floats(-4, 4)), draw(st.floats(-4, 4))] for _ in range(draw(st.sampled_from([0, 0, 2])))]
     nsig = draw(st.sampled_from([1, 1, 1, 2, 3]))
-    sched = [(draw(st.sampled_from(["uniform", "loop", "loop", "loop", "loop", "out", "out", "out", "out", "first", "last", "final"])), draw(st.floats(0, 0.999)))
+    sched = [(draw(st.sampled_from(["uniform"] + ["loop"] * 8 + ["out"] * 8 + ["first", "last", "final"])), draw(st.floats(0, 0.999)))
              for _ in range(nsig)]
     return dict(opts=o, track=track, schedule=sched)
 
